@@ -97,6 +97,23 @@ def held_by_framework(obj: dict) -> bool:
     return isinstance(fs, list) and any(isinstance(x, str) and x == FIN for x in fs)
 
 
+def stored_state_present(obj: dict, diffbase: str = 'annotations') -> bool:
+    """Does the server-side object carry a stored last-handled state (whatever its content, e.g. '{}')?"""
+    if diffbase == 'status':
+        st = obj.get('status')
+        kopf_st = st.get('kopf') if isinstance(st, dict) else None
+        return isinstance(kopf_st, dict) and kopf_st.get('last-handled-configuration') is not None
+    anns = obj.get('metadata', {}).get('annotations')
+    return isinstance(anns, dict) and anns.get(LAST) is not None
+
+
+def patch_stores_state(patch: dict, diffbase: str = 'annotations') -> bool:
+    if diffbase == 'status':
+        v = patch.get('status', {}).get('kopf', {}) if isinstance(patch.get('status'), dict) else {}
+        return isinstance(v, dict) and v.get('last-handled-configuration') is not None
+    return (patch.get('metadata', {}).get('annotations', {}) or {}).get(LAST) is not None
+
+
 def spec_reason(gone: bool, marked: bool, held: bool, never_handled: bool, changed: bool, first_sight: bool) -> str:
     """The precedence list of the property statement."""
     if gone:
@@ -135,6 +152,10 @@ class Env:
         self.settings = configuration.OperatorSettings()
         if self.settings.persistence.finalizer != FIN:
             raise RuntimeError(f'observation point moved: default finalizer is {self.settings.persistence.finalizer!r}')
+        from kopf._cogs.configs import diffbase as _diffbase
+        status_settings = configuration.OperatorSettings()
+        status_settings.persistence.diffbase_storage = _diffbase.StatusDiffBaseStorage()
+        self.settings_by = {'annotations': self.settings, 'status': status_settings}
         self.indexers = indexing.OperatorIndexers()
         self.logger = logging.getLogger('kv.c05')
         self.logger.setLevel(logging.DEBUG)
@@ -474,6 +495,12 @@ def run_pass(env: Env, R: Registry, memory_box: dict, ev: Any, obj: dict, carrie
     R.calls.clear()
     body = env.bodies.Body(obj)
     patch = env.patches.Patch(copy.deepcopy(carried) if carried else {}, body=body)
+    settings = env.settings_by[memory_box.get('diffbase', 'annotations')]
+    # the model's input "old is None": is a last-handled state FETCHED from the body (real storage, called by the harness)
+    try:
+        fetched_none: Any = settings.persistence.diffbase_storage.fetch(body=env.bodies.Body(copy.deepcopy(obj))) is None
+    except (KeyError, TypeError, AttributeError, ValueError):
+        fetched_none = None
 
     async def go() -> Any:
         if memory_box.get('memory') is None:
@@ -481,7 +508,7 @@ def run_pass(env: Env, R: Registry, memory_box: dict, ev: Any, obj: dict, carrie
         mem = memory_box['memory']
         memory_box['initial'] = bool(mem.noticed_by_listing and not mem.fully_handled_once)
         return await env.processing.process_resource_causes(
-            lifecycle=env.lifecycles.all_at_once, indexers=env.indexers, registry=R.reg, settings=env.settings,
+            lifecycle=env.lifecycles.all_at_once, indexers=env.indexers, registry=R.reg, settings=settings,
             resource=env.resource, raw_event={'type': ev, 'object': obj}, body=body, patch=patch, memory=mem,
             local_logger=env.logger, event_logger=env.logger, stream_pressure=None, operator_paused=None, consistency_time=None)
     loop = memory_box.setdefault('loop', None) or asyncio.new_event_loop()
@@ -493,7 +520,7 @@ def run_pass(env: Env, R: Registry, memory_box: dict, ev: Any, obj: dict, carrie
         result, outcome = None, canon.classify_exc(e)
     cause = env.seen_causes[0].changing_cause if env.seen_causes else None
     return {
-        'outcome': outcome, 'result': result, 'patch': patch, 'cause': cause,
+        'outcome': outcome, 'result': result, 'patch': patch, 'cause': cause, 'fetched_none': fetched_none,
         'initial': memory_box.get('initial', False),
         'changing': list(env.seen_changing),
         'calls': copy.deepcopy(R.calls),
@@ -515,7 +542,7 @@ def pass_case(env: Env, R: Registry, ev: Any, obj: dict, carried: dict | None, o
     except cq.Unencodable:
         return []
     cause = obs['cause']
-    old_none = cause is not None and cause.old is None
+    old_none = cause is not None and bool(obs['fetched_none'])     # NOT cause.old: that is the code under test
     diff_empty = cause is not None and not cause.diff
     initial = obs['initial']
     fl = f'{cq.cbool(old_none)} {cq.cbool(diff_empty)} {cq.cbool(initial)}'
@@ -598,37 +625,49 @@ def monitor_pass(ctx: fw.Ctx, R: Registry, ev: Any, obj: dict, obs: dict, data: 
         once.add(key)
 
 
-def gen_state(r: Any, G: g.Gen, env: Env) -> tuple[dict, bool, bool]:
-    """A server-side object in one of the life-cycle states; (object, never_handled, changed since last handled).
-    The last-handled annotation is produced by the real diff-base storage from the object as it was when 'handled'."""
-    body = G.body()
-    md = body.setdefault('metadata', {})
-    md.pop('finalizers', None)
-    body.setdefault('spec', {})
-    if not isinstance(body['spec'], dict):
-        body['spec'] = {'x': body['spec']}
-    if r.random() < 0.5:
-        body['spec']['x'] = r.choice([1, 2, 'v'])
+def gen_state(r: Any, G: g.Gen, env: Env, diffbase: str = 'annotations') -> tuple[dict, bool, bool, bool]:
+    """A server-side object in one of the life-cycle states; (object, never_handled, changed since last handled, empty).
+    The stored last-handled state is produced by the real diff-base storage from the object as it was when 'handled'.
+    `empty`: an object with an EMPTY essence (no spec, no labels, no user annotations: only system metadata) whose
+    stored last-handled state is therefore '{}' — present, but falsy in Python."""
+    empty = r.random() < 0.2
+    if empty:
+        body: dict[str, Any] = {'apiVersion': 'kopf.dev/v1', 'kind': 'KopfExample',
+                                'metadata': {'name': 'obj1', 'namespace': 'ns1', 'uid': f'uid-{r.randrange(100)}',
+                                             'resourceVersion': str(r.randrange(1, 5000)), 'creationTimestamp': '2020-01-01T00:00:00Z'}}
+        if r.random() < 0.3:
+            body['status'] = {'observed': 1}
+    else:
+        body = G.body()
+        md = body.setdefault('metadata', {})
+        md.pop('finalizers', None)
+        body.setdefault('spec', {})
+        if not isinstance(body['spec'], dict):
+            body['spec'] = {'x': body['spec']}
+        if r.random() < 0.5:
+            body['spec']['x'] = r.choice([1, 2, 'v'])
+        if diffbase == 'status' and not isinstance(body.get('status', {}), dict):
+            body.pop('status')
     hist = r.choice(['never', 'same', 'same', 'edited', 'edited', 'status-only'])
     never, changed = hist == 'never', False
     if not never:
-        storage = env.settings.persistence.diffbase_storage
+        storage = env.settings_by[diffbase].persistence.diffbase_storage
         fields = {('spec', 'x')}
         essence = storage.build(body=env.bodies.Body(body), extra_fields=fields)
         p = env.patches.Patch({})
         storage.store(body=env.bodies.Body(body), patch=p, essence=essence)
-        body = canon.merge7386(body, dict(p))
+        body = copy.deepcopy(canon.merge7386(body, copy.deepcopy(dict(p))))
         if hist == 'edited':
             which = r.randrange(3)
             if which == 0:
-                body['spec']['x'] = 'edited'
+                body.setdefault('spec', {})['x'] = 'edited'
             elif which == 1:
-                body['spec']['added'] = {'k': 1}
+                body.setdefault('spec', {})['added'] = {'k': 1}
             else:
                 body['metadata'].setdefault('labels', {})['edited'] = 'yes'
             changed = True
         elif hist == 'status-only':
-            body['status'] = {'observed': r.randrange(100)}
+            body.setdefault('status', {})['observed'] = r.randrange(100)
             body['metadata']['resourceVersion'] = str(r.randrange(5000, 6000))
     md = body['metadata']
     k = r.randrange(10)
@@ -638,7 +677,7 @@ def gen_state(r: Any, G: g.Gen, env: Env) -> tuple[dict, bool, bool]:
         md['finalizers'] = r.choice([['other/finalizer'], [FIN + 'x'], ['x' + FIN, FIN[:-1]]])
     if r.random() < 0.35:
         md['deletionTimestamp'] = '2020-01-01T00:00:00Z'
-    return body, never, changed
+    return body, never, changed, empty
 
 
 def run_passes(ctx: fw.Ctx, env: Env, G: g.Gen, n: int, D: dict[str, list[fw.Case]]) -> None:
@@ -646,18 +685,19 @@ def run_passes(ctx: fw.Ctx, env: Env, G: g.Gen, n: int, D: dict[str, list[fw.Cas
     for i in range(n):
         decls = gen_decls(r)
         R = Registry(env, decls)
-        obj, never, changed = gen_state(r, G, env)
+        diffbase = 'status' if r.random() < 0.2 else 'annotations'
+        obj, never, changed, empty = gen_state(r, G, env, diffbase)
         malformed = r.random() < 0.06
         if malformed:
             obj = gen_metadata_variant(r, G, obj)
         ev = r.choice([None, 'ADDED', 'MODIFIED', 'MODIFIED', 'MODIFIED', 'DELETED'])
         listing = ev is None or r.random() < 0.3
-        box: dict[str, Any] = {'memory': None, 'listing': listing, 'loop': env_loop(env)}
+        box: dict[str, Any] = {'memory': None, 'listing': listing, 'loop': env_loop(env), 'diffbase': diffbase}
         handled_once = r.random() < 0.3
 
         carried = {'status': {'carried': 1}} if r.random() < 0.1 else None
         data = {'registry': decls, 'event': ev, 'object': obj, 'listing': listing, 'fully_handled_once': handled_once,
-                'carried_patch': carried}
+                'carried_patch': carried, 'diffbase': diffbase}
         if handled_once:
             box['memory'] = make_memory(env, box, listing, True)
         obs = run_pass(env, R, box, ev, copy.deepcopy(obj), carried)
@@ -667,6 +707,10 @@ def run_passes(ctx: fw.Ctx, env: Env, G: g.Gen, n: int, D: dict[str, list[fw.Cas
         ctx.count('pass_outcome', obs['outcome'])
         ctx.count('pass_decision', 'block' if obs['block'] else 'allow' if obs['allow_early'] else
                   ('handled:' + obs['changing'][0][0]) if obs['changing'] else 'nothing')
+        ctx.count('stored_state', ('malformed' if malformed else 'none' if never else 'empty-essence' if empty else 'non-empty')
+                  + ':' + diffbase)
+        if not malformed and never != (not stored_state_present(obj, diffbase)):
+            raise RuntimeError('generator: stored last-handled state is not where the harness expects it')
         if not malformed and obs['outcome'] == 'ok':
             monitor_pass(ctx, R, ev, obj, obs, data, never, changed, first_sight)
         if len({d['kind'] for d in decls}) >= 2 and (obs['changing'] or obs['block'] or obs['allow_early']):
@@ -708,14 +752,21 @@ def run_histories(ctx: fw.Ctx, env: Env, G: g.Gen, n: int, steps: int, D: dict[s
         while not decls:
             decls = gen_decls(r)
         R = Registry(env, decls)
-        obj: dict | None = {'apiVersion': 'kopf.dev/v1', 'kind': 'KopfExample',
-                            'metadata': {'name': 'obj1', 'namespace': 'ns1', 'uid': f'uid-{hi}', 'resourceVersion': '1',
-                                         'labels': G.labels()},
-                            'spec': {'x': r.choice([1, 2]), 'other': G.obj(1)}}
+        diffbase = 'status' if r.random() < 0.2 else 'annotations'
+        empty = r.random() < 0.3        # an object with an empty essence: only system metadata, no spec/labels/annotations
+        if empty:
+            obj: dict | None = {'apiVersion': 'kopf.dev/v1', 'kind': 'KopfExample',
+                                'metadata': {'name': 'obj1', 'namespace': 'ns1', 'uid': f'uid-{hi}', 'resourceVersion': '1'}}
+        else:
+            obj = {'apiVersion': 'kopf.dev/v1', 'kind': 'KopfExample',
+                   'metadata': {'name': 'obj1', 'namespace': 'ns1', 'uid': f'uid-{hi}', 'resourceVersion': '1',
+                                'labels': G.labels()},
+                   'spec': {'x': r.choice([1, 2]), 'other': G.obj(1)}}
+        assert obj is not None
         if r.random() < 0.3:
             obj['metadata']['finalizers'] = ['other/finalizer']
         rv = 1
-        box: dict[str, Any] = {'memory': None, 'listing': r.random() < 0.3, 'loop': env_loop(env)}
+        box: dict[str, Any] = {'memory': None, 'listing': r.random() < 0.3, 'loop': env_loop(env), 'diffbase': diffbase}
         handled_snapshot: Any = None       # user essence when the last-handled state was last written
         completed_here = False             # a handling cycle completed in this incarnation
         pending: list[Any] = [None if box['listing'] else 'ADDED']
@@ -725,15 +776,18 @@ def run_histories(ctx: fw.Ctx, env: Env, G: g.Gen, n: int, steps: int, D: dict[s
                 break
             if not pending:
                 # environment action
-                act = r.choice(['edit', 'edit', 'status', 'delete', 'restart', 'foreign-finalizer', 'label'])
+                acts = ['edit', 'edit', 'status', 'delete', 'restart', 'foreign-finalizer', 'label']
+                if empty:       # keep the essence empty for a while: echo / relist / status first, then add a label or spec
+                    acts = ['status', 'restart', 'restart', 'foreign-finalizer', 'label', 'edit', 'delete']
+                act = r.choice(acts)
                 assert obj is not None
                 md = obj['metadata']
                 if act == 'edit':
-                    obj['spec']['x'] = r.choice([1, 2, 3, 'v'])
+                    obj.setdefault('spec', {})['x'] = r.choice([1, 2, 3, 'v'])
                 elif act == 'label':
                     md.setdefault('labels', {})['l'] = r.choice(['a', 'b'])
                 elif act == 'status':
-                    obj['status'] = {'n': step}
+                    obj.setdefault('status', {})['n'] = step
                 elif act == 'foreign-finalizer':
                     fs = md.setdefault('finalizers', [])
                     if 'other/finalizer' in fs:
@@ -745,7 +799,7 @@ def run_histories(ctx: fw.Ctx, env: Env, G: g.Gen, n: int, steps: int, D: dict[s
                 elif act == 'delete':
                     md['deletionTimestamp'] = '2020-01-01T00:00:00Z'
                 elif act == 'restart':
-                    box = {'memory': None, 'listing': True, 'loop': env_loop(env)}
+                    box = {'memory': None, 'listing': True, 'loop': env_loop(env), 'diffbase': diffbase}
                     completed_here = False
                     pending.append(None)
                     trace.append({'env': act})
@@ -761,15 +815,17 @@ def run_histories(ctx: fw.Ctx, env: Env, G: g.Gen, n: int, steps: int, D: dict[s
             ev = pending.pop(0)
             assert obj is not None
             seen = copy.deepcopy(obj)
-            never = LAST not in seen.get('metadata', {}).get('annotations', {})
+            never = not stored_state_present(seen, diffbase)      # "never handled before" = NO last-handled state is stored
             changed = (not never) and user_essence(seen) != handled_snapshot
             first_sight = bool(box['listing']) and not completed_here
             mem = box.get('memory')
             data = {'registry': decls, 'event': ev, 'object': seen, 'history': copy.deepcopy(trace), 'listing': box['listing'],
-                    'fully_handled_once': bool(mem.fully_handled_once) if mem is not None else False, 'carried_patch': None}
+                    'fully_handled_once': bool(mem.fully_handled_once) if mem is not None else False, 'carried_patch': None,
+                    'diffbase': diffbase}
             obs = run_pass(env, R, box, ev, copy.deepcopy(seen), None)
             for name, case in pass_case(env, R, ev, seen, None, obs, data):
                 D[name + '_hist'].append(case)
+            ctx.count('history_pass_stored_state', 'none' if never else 'empty-essence' if user_essence(seen) == {'spec': None, 'labels': {}, 'annotations': {}} and not changed else 'non-empty-or-changed')
             if obs['outcome'] != 'ok':
                 ctx.correspondence_break('history', {'detail': 'the reactor raised on a well-formed object', 'case': data,
                                                      'outcome': obs['outcome']})
@@ -790,8 +846,7 @@ def run_histories(ctx: fw.Ctx, env: Env, G: g.Gen, n: int, steps: int, D: dict[s
             for f in patch.fns:
                 f(newobj)
             newobj.setdefault('metadata', {})
-            if LAST in dict(patch).get('metadata', {}).get('annotations', {}) and \
-                    dict(patch)['metadata']['annotations'][LAST] is not None:
+            if patch_stores_state(dict(patch), diffbase):
                 handled_snapshot = user_essence(seen)
             if newobj != seen:
                 rv += 1
@@ -803,6 +858,7 @@ def run_histories(ctx: fw.Ctx, env: Env, G: g.Gen, n: int, steps: int, D: dict[s
                 else:
                     pending.append('MODIFIED')
         ctx.cov['traces_validated_against_impl'] += 1
+        ctx.count('history_kind', ('empty-essence' if empty else 'non-empty') + ':' + diffbase)
         ctx.count('history_length', str(min(len(trace) // 5 * 5, 40)))
         if sum(1 for t in trace if t.get('invoked')) >= 2:
             ctx.nontriv(['history', decls, trace])
@@ -824,7 +880,7 @@ def seeded_corpus(ctx: fw.Ctx, env: Env, D: dict[str, list[fw.Case]]) -> None:
 def replay_case(ctx: fw.Ctx, env: Env, c: dict, D: dict[str, list[fw.Case]] | None = None) -> None:
     R = Registry(env, c['registry'])
     listing = bool(c.get('listing'))
-    box: dict[str, Any] = {'memory': None, 'listing': listing, 'loop': env_loop(env)}
+    box: dict[str, Any] = {'memory': None, 'listing': listing, 'loop': env_loop(env), 'diffbase': c.get('diffbase', 'annotations')}
     if c.get('fully_handled_once'):
         box['memory'] = make_memory(env, box, listing, True)
     obj = c['object']
